@@ -298,9 +298,15 @@ func checkC07(e *Env) {
 			}
 			c.Workers = append(c.Workers, ops)
 		}
-		cr := e.RunConc(raceDrv, c, "c07-"+itoa(ci), []string{"VERIF_EARLYRAND=1"}, 10*time.Minute)
+		cenv := []string{"VERIF_EARLYRAND=1"}
+		if ci%3 == 2 {
+			// the first crypto/rand read of the process fails: one failed call, then concurrency
+			cenv = []string{"VERIF_EARLYRAND=fail:1"}
+			c.Pre = []plan.Op{{I: 0, Fn: "new", N: 24, L: 2}}
+		}
+		cr := e.RunConc(raceDrv, c, "c07-"+itoa(ci), cenv, 10*time.Minute)
 		viol := func(what string, detail any) {
-			e.Violate(&Violation{What: fmt.Sprintf("concurrent default-source process %d (%d goroutines, GOMAXPROCS %d): %s", ci, G, c.GoMaxProcs, what), Conc: c, Race: true, ChildEnv: []string{"VERIF_EARLYRAND=1"}, Detail: detail})
+			e.Violate(&Violation{What: fmt.Sprintf("concurrent default-source process %d (%d goroutines, GOMAXPROCS %d): %s", ci, G, c.GoMaxProcs, what), Conc: c, Race: true, ChildEnv: c07env(ci), Detail: detail})
 		}
 		for _, lg := range cr.RaceLogs {
 			for _, b := range raceBlocks(lg) {
@@ -332,6 +338,14 @@ func checkC07(e *Env) {
 		consumed := make([]int, G)
 		for i := range cr.Results {
 			res := &cr.Results[i]
+			if res.G == -1 {
+				if res.Err == nil || res.Out != "" {
+					viol("crypto/rand.Reader failed on its first read, yet the sequential NewMnemonic before the goroutines started returned a mnemonic", res)
+					return
+				}
+				obs.Inc("injected_crypto_rand_failures_observed")
+				continue
+			}
 			op := &c.Workers[res.G][res.I]
 			need := int(op.N) + int(op.N)/3
 			if res.Panic != "" || res.Err != nil {
@@ -442,4 +456,11 @@ func parseGetrandom(trace string) (out [][]byte, unparsed int) {
 		unparsed = 0
 	}
 	return out, unparsed
+}
+
+func c07env(ci int) []string {
+	if ci%3 == 2 {
+		return []string{"VERIF_EARLYRAND=fail:1"}
+	}
+	return []string{"VERIF_EARLYRAND=1"}
 }
